@@ -27,6 +27,7 @@ code -> spec : every returned number is *projected* onto the lattice with exact 
 Python never decides a verdict; it maps abstract <-> concrete and records.
 """
 import math
+import os
 import random
 import zlib
 from decimal import Decimal, localcontext
@@ -420,6 +421,309 @@ def eval_work(item):
 
 
 # ---------------------------------------------------------------------------------
+# WORLD: sessions over the public entry points in ONE process (SphereWorld.tla)
+WORLD = True              # class W dimension (disable = not exported, not run)
+WORLD_EPS = (1, 2, 0)     # session field e -> eps instantiation: twins differ in the 10th / 7th / 13th digit
+W_ID = 3 * ID_STEP        # record ids of the sessions' separation calls: W_ID + 8 * session + step
+HARNESS_DIR = os.path.dirname(os.path.dirname(os.path.dirname(os.path.abspath(__file__))))
+
+
+def world_call(c, wp, eidx):
+    """abstract call of SphereWorld.tla -> concrete call {e, u, f, args (hex doubles)}"""
+    eps = EPS[eidx]
+    conv = sl.deg_float if c["nu"] == "deg" else sl.rad_float
+    args = []
+    for p in c["a"]:
+        pt = wp["pts"][p - 1]
+        if c["e"] == "xyz2eq":       # a direction as three numbers (the outcome is judged against the fresh world only)
+            lon, lat = (math.radians(sl.deg_float(sl.eangle(pt[k], eps))) for k in ("lon", "lat"))
+            args += [math.cos(lon) * math.cos(lat), math.sin(lon) * math.cos(lat), math.sin(lat)]
+        else:
+            args += [conv(sl.eangle(pt["lon"], eps)), conv(sl.eangle(pt["lat"], eps))]
+    return {"e": c["e"], "u": c["u"], "nu": c["nu"], "f": c["f"], "p": list(c["a"]), "args": [float(x).hex() for x in args]}
+
+
+def world_session(sess, wp):
+    eidx = WORLD_EPS[sess["e"] % len(WORLD_EPS)]
+    steps = [dict(st, c=world_call(st["c"], wp, eidx)) if st["op"] == "call" else dict(st) for st in sess["steps"]]
+    return {"eps": eidx, "steps": steps, "tag": {k: sess[k] for k in ("i1", "i2", "f1", "f2", "rel", "t")}}
+
+
+def _w_snapshot(res):
+    parts = res if isinstance(res, tuple) else (res,)
+    out = []
+    for r in parts:
+        a = np.asarray(r)
+        out.append([type(r).__name__, a.dtype.str, list(a.shape), np.ascontiguousarray(a).tobytes().hex()])
+    return out
+
+
+def _w_run_session(sess):
+    """executed in a forked child of a pristine process: the steps of one session, in order"""
+    import esutil.coords as co
+    held, out = [], []
+    for st in sess["steps"]:
+        if st["op"] == "call":
+            c = st["c"]
+            xs = [float.fromhex(x) for x in c["args"]]
+            mk = {"scalar": float, "npscalar": np.float64, "arr1": lambda x: np.array([x], dtype="f8")}[c["f"]]
+            args = [mk(x) for x in xs]
+            before = [a.tobytes() for a in args if isinstance(a, np.ndarray)]
+            rec = {"op": "call", "err": "none", "out": None, "argsok": True}
+            res = None
+            try:
+                with np.errstate(all="ignore"):
+                    if c["e"] == "eq2xyz":
+                        res = co.eq2xyz(*args, units=c["u"])
+                    elif c["e"] == "xyz2eq":
+                        res = co.xyz2eq(*args, units=c["u"])
+                    elif c["e"] == "sphdist":
+                        res = co.sphdist(*args, units=[c["u"], c["u"]])
+                    else:
+                        res = co.gcirc(*args)
+                rec["out"] = _w_snapshot(res)
+            except Exception as e:  # noqa
+                rec["err"] = type(e).__name__
+            rec["argsok"] = [a.tobytes() for a in args if isinstance(a, np.ndarray)] == before
+            held.append((res, args))
+            out.append(rec)
+        else:
+            res, args = held[st["h"] - 1]
+            targets = args if st["op"] == "scribble_args" else (res if isinstance(res, tuple) else (res,))
+            n = 0
+            for a in targets:
+                if isinstance(a, np.ndarray) and a.flags.writeable and a.dtype.kind == "f":
+                    if st["how"] == 0:
+                        a *= 1500.0
+                    elif st["how"] == 1:
+                        a[...] = np.nan
+                    else:
+                        a[...] = 0.0
+                    n += 1
+            held.append(None)
+            out.append({"op": st["op"], "h": st["h"], "n": n})
+    for rec, h in zip(out, held):
+        if rec["op"] == "call":
+            rec["kept"] = bool(rec["err"] != "none" or _w_snapshot(h[0]) == rec["out"])
+    return out
+
+
+def _world_zygote():
+    """main of the helper process: imports esutil, calls nothing, forks one child per session"""
+    import json
+    import sys
+    job = json.load(sys.stdin)
+    import esutil
+    if not os.path.realpath(esutil.__file__).startswith(os.path.realpath(job["tree"])):
+        print(json.dumps({"error": "esutil imported from %s" % esutil.__file__}))
+        return
+    import esutil.coords  # noqa
+    results = []
+    for sess in job["sessions"]:
+        r, w = os.pipe()
+        pid = os.fork()
+        if pid == 0:
+            try:
+                os.close(r)
+                data = json.dumps(_w_run_session(sess)).encode()
+                with os.fdopen(w, "wb") as f:
+                    f.write(data)
+            finally:
+                os._exit(0)
+        os.close(w)
+        with os.fdopen(r, "rb") as f:
+            data = f.read()
+        os.waitpid(pid, 0)
+        results.append(json.loads(data) if data else None)
+    print(json.dumps({"results": results}))
+
+
+def world_exec(ctx, sessions, lanes=None):
+    """run every session in a fresh process image (helper processes that fork one child per session)"""
+    import json
+    import subprocess
+    import sys
+    from concurrent.futures import ThreadPoolExecutor
+    lanes = lanes or max(1, min(8, int(os.environ.get("VH_MAX_WORKERS", "16")), len(sessions) // 32 + 1))
+    code = "import sys; sys.path.insert(0, %r); from vh.adapters import c08; c08._world_zygote()" % HARNESS_DIR
+    tree = ctx.tree or os.path.dirname(os.path.dirname(os.path.realpath(__import__("esutil").__file__)))
+
+    def lane(k):
+        part = sessions[k::lanes]
+        p = subprocess.run([sys.executable, "-c", code], input=json.dumps({"tree": tree, "sessions": part}),
+                           stdout=subprocess.PIPE, stderr=subprocess.PIPE, text=True, timeout=900)
+        try:
+            res = json.loads(p.stdout.strip().splitlines()[-1])
+        except (ValueError, IndexError):
+            raise MachineryError("world helper process failed (rc %s): %s" % (p.returncode, p.stderr[-2000:]))
+        if "error" in res:
+            raise MachineryError("world helper process: " + res["error"])
+        return res["results"]
+    with ThreadPoolExecutor(lanes) as ex:
+        parts = list(ex.map(lane, range(lanes)))
+    out = [None] * len(sessions)
+    for k, part in enumerate(parts):
+        out[k::lanes] = part
+    return out
+
+
+def world_eval(ctx, sessions):
+    """sessions (concrete) -> per session the trace record of SphereWorldTrace.tla (+ raw outcomes): every call step
+    is compared with the same call made as the only call of a fresh process"""
+    import json
+    keyof = lambda c: json.dumps(c, sort_keys=True)  # noqa
+    refs = {}
+    for s in sessions:
+        for st in s["steps"]:
+            if st["op"] == "call":
+                refs.setdefault(keyof(st["c"]), st["c"])
+    rkeys = sorted(refs)
+    singles = [{"steps": [{"op": "call", "c": refs[k]}]} for k in rkeys]
+    res = world_exec(ctx, singles + sessions)
+    fresh = {}
+    for k, r in zip(rkeys, res[:len(singles)]):
+        if r is None:
+            raise MachineryError("fresh-world reference call died: %s" % k)
+        fresh[k] = (r[0]["err"], r[0]["out"])
+    recs = []
+    for s, r in zip(sessions, res[len(singles):]):
+        steps = []
+        for n, st in enumerate(s["steps"]):
+            if st["op"] != "call":
+                steps.append({"op": st["op"], "h": st["h"]})
+            elif r is None:
+                steps.append({"op": "call", "err": "ProcessDied", "same": False, "kept": False, "argsok": False})
+            else:
+                o = r[n]
+                steps.append({"op": "call", "err": o["err"], "same": (o["err"], o["out"]) == fresh[keyof(st["c"])],
+                              "kept": o["kept"], "argsok": o["argsok"]})
+        recs.append({"steps": steps, "raw": r, "fresh": fresh})
+    return recs
+
+
+def world_gc_record(rid, wp, eidx, c, o):
+    """a separation call of a session as a record of SphereTrace.tla (only when the numbers were made for the declared unit)"""
+    p, q = c["p"]
+    pr = {"kind": "gc", "c": {"kind": "gc", "p": wp["pts"][p - 1], "q": wp["pts"][q - 1]}, "eps": eidx, "sep": wp["seps"][p - 1][q - 1]}
+    var = ("sphdist", c["u"], c["u"], 0, 0, 0, 0) if c["e"] == "sphdist" else ("gcirc", "deg", "rad", 0, 0, 0, 0)
+    err, v = o["err"], None
+    if err == "none":
+        a = np.frombuffer(bytes.fromhex(o["out"][0][3]), dtype=np.dtype(o["out"][0][1])) if len(o["out"]) == 1 else np.zeros(0)
+        if a.size == 1 and a.dtype.kind == "f":
+            v = float(a[0])
+        else:
+            err = "ShapeError"
+    ob, dev = project(pr, var, err, v)
+    ob["k"] = 1
+    return {"id": rid, "c": pr["c"], "obs": [ob], "dev": dev, "ret": v}
+
+
+def world_judge(ctx, wp, sessions, cap=4, recs=None):
+    """run, record, let TLC judge (SphereWorldTrace: independence of the process history; SphereTrace: the exact
+    separation of every sphdist / gcirc call made inside a session) -> violations.  Returns counters."""
+    from concurrent.futures import ThreadPoolExecutor
+    recs = recs or world_eval(ctx, sessions)
+    wrecs = [{"id": n + 1, "steps": r["steps"]} for n, r in enumerate(recs)]
+    grecs = {}
+    for n, (s, r) in enumerate(zip(sessions, recs)):
+        for k, st in enumerate(s["steps"]):
+            if st["op"] == "call" and st["c"]["e"] in ("sphdist", "gcirc") and st["c"]["nu"] == st["c"]["u"] and r["raw"] is not None:
+                g = world_gc_record(W_ID + 8 * n + k, wp, s["eps"], st["c"], r["raw"][k])
+                grecs[g["id"]] = g
+    with ThreadPoolExecutor(2) as ex:
+        f1 = ex.submit(tracecheck.validate, ctx, "SphereWorldTrace.tla", wrecs, what="judge sessions (SphereWorldTrace)")
+        f2 = ex.submit(tracecheck.validate, ctx, "SphereTrace.tla", [{"id": g["id"], "c": g["c"], "obs": g["obs"]} for g in grecs.values()],
+                       what="judge separation calls inside sessions (SphereTrace)")
+        rej_w, rej_g = f1.result(), f2.result()
+    emitted = {}
+
+    def emit(sig, what_, n, k, cl):
+        if emitted.get(sig, 0) < cap:
+            emitted[sig] = emitted.get(sig, 0) + 1
+            ctx.violation(sig, what_, {"kind": "world", "session": sessions[n], "step": k, "clause": cl, "sig": sig})
+
+    def story(n, k):
+        s = sessions[n]
+        txt = []
+        for st in s["steps"][:k + 1]:
+            if st["op"] == "call":
+                c = st["c"]
+                txt.append("%s(%s; units=%s; %s)" % (c["e"], ", ".join(repr(float.fromhex(x)) for x in c["args"]), c["u"], c["f"]))
+            else:
+                txt.append("caller overwrites the %s of step %d in place" % ("result" if st["op"] == "scribble" else "argument arrays", st["h"]))
+        return " ; ".join(txt)
+    for rid, failing in sorted(rej_w.items()):
+        n = rid - 1
+        for cl, k1 in failing:
+            if cl in MACHINERY_CLAUSES:
+                raise MachineryError("SphereWorldTrace rejected the record itself: %s" % sessions[n])
+            k = k1 - 1
+            s = sessions[n]
+            writers = sorted({st["c"]["e"] for st in s["steps"][:k] if st["op"] == "call"})
+            sig = "world|%s|%s->%s" % (cl, "+".join(writers) or "-", s["steps"][k]["c"]["e"])
+            raw = recs[n]["raw"]
+            emit(sig, "clause %s of SphereWorldTrace.tla at step %d of the session [%s]: returned %s, the same call in a fresh "
+                 "process returns %s" % (cl, k1, story(n, k), None if raw is None else (raw[k]["err"], raw[k]["out"]),
+                                         recs[n]["fresh"].get(__import__("json").dumps(s["steps"][k]["c"], sort_keys=True))), n, k, cl)
+    for rid, failing in sorted(rej_g.items()):
+        n, k = divmod(rid - W_ID, 8)
+        g = grecs[rid]
+        for cl, _ in failing:
+            if cl in MACHINERY_CLAUSES:
+                raise MachineryError("SphereTrace rejected the record itself (%s): %s" % (cl, g["c"]))
+            c = sessions[n]["steps"][k]["c"]
+            sig = "%s|%s|session" % (c["e"], cl)
+            emit(sig, "clause %s of SphereTrace.tla at step %d of the session [%s]: returned %r for a true separation of %d%+d*%s deg"
+                 % (cl, k + 1, story(n, k), g["ret"], g["obs"] and wp["seps"][c["p"][0] - 1][c["p"][1] - 1][0],
+                    wp["seps"][c["p"][0] - 1][c["p"][1] - 1][1], EPS_NAMES[sessions[n]["eps"]]), n, k, cl)
+    for n, s in enumerate(sessions):
+        ctx.count({"world": s["tag"], "eps": s["eps"]}, n=sum(1 for st in s["steps"] if st["op"] == "call"))
+    scrib = sum(st.get("n", 0) for r in recs if r["raw"] for st in r["raw"] if st["op"] == "scribble")
+    if not scrib or not grecs:
+        raise MachineryError("world sessions: nothing scribbled / no separation call judged (%d, %d)" % (scrib, len(grecs)))
+    return {"sessions": len(sessions), "session_calls": sum(len(r["steps"]) for r in recs), "fresh_reference_calls": len(recs[0]["fresh"]) if recs else 0,
+            "separation_calls_in_sessions": len(grecs), "arrays_scribbled": scrib, "rejected_sessions": len(rej_w), "rejected_session_separations": len(rej_g)}
+
+
+def world_model(ctx):
+    """SphereWorld.tla: the faithful mechanisms satisfy WorldInv on every session up to MaxLen steps, every deviating one
+    violates it; export the points and the sessions"""
+    from concurrent.futures import ThreadPoolExecutor
+    allf = {"scalar", "npscalar", "arr1"}
+    base = dict(Mechs={"none", "copy"}, MaxLen=3, MCForms={"scalar"} if ctx.quick else {"scalar", "arr1"}, MemoForms=allf, Thorough=not ctx.quick, DoExport=False)
+    devs = (("alias", "AliasOK"), ("coarse_digits", "CoarseDigitsOK"), ("coarse_units", "CoarseUnitsOK"))
+
+    def dev(md):
+        return ctx.tlc("SphereWorld.tla", what="self-test: mechanism %s violates WorldInv" % md[0],
+                       cfg_text=cfg(constants=dict(base, Mechs={md[0]}, MCForms={"scalar"}), invariants=[md[1]]),
+                       workers=1, allow_violation=True, coverage=False)
+
+    def main():
+        return ctx.tlc("SphereWorld.tla", what="world machine: faithful mechanisms, all sessions <= 3 steps",
+                       cfg_text=cfg(constants=base, invariants=["FaithfulOK"]), workers=8, require=["DoCall", "DoScribble", "DoScribbleArgs"])
+
+    def export():
+        return ctx.tlc("SphereWorld.tla", what="export world points and sessions",
+                       cfg_text=cfg(constants=dict(base, Mechs={"none"}, MaxLen=0, DoExport=True), constraints=["Export"]),
+                       workers=1, coverage=False)
+    with ThreadPoolExecutor(5) as ex:
+        fm, fe = ex.submit(main), ex.submit(export)
+        fd = [ex.submit(dev, md) for md in devs]
+        fm.result()
+        for md, f in zip(devs, fd):
+            if md[1] not in f.result().violated:
+                raise MachineryError("self-test failed: mechanism %s does not violate %s" % md)
+        exp = fe.result().records
+    if not exp.get("WPTS") or not exp.get("WSESS"):
+        raise MachineryError("world sessions not exported")
+    wp = exp["WPTS"][0]
+    sessions = [world_session(s, wp) for s in exp["WSESS"][0]["sessions"]]
+    if len(sessions) < 500:
+        raise MachineryError("too few world sessions exported (%d)" % len(sessions))
+    return wp, sessions
+
+
+# ---------------------------------------------------------------------------------
 def sep_group(pr):
     """which code path the true separation selects: identical/coincident, chord formula, or the
     cross-product branch (chord^2 >= 3.99  <=>  cos(sep) <= -0.995)"""
@@ -604,6 +908,14 @@ def run(ctx):
     sl.self_validate()
     B = BOUNDS[ctx.tier]
     consts = dict(B, FixedAxis=True, FixedIndex=True, DoExport=False)
+    # 0. class W, alongside the rest: the world machine (SphereWorld.tla), its sessions run in fresh processes
+    from concurrent.futures import ThreadPoolExecutor
+    wpool = ThreadPoolExecutor(1)
+
+    def world_bg():
+        wp_, ss_ = world_model(ctx)
+        return wp_, ss_, world_eval(ctx, ss_)
+    wfut = wpool.submit(world_bg) if WORLD else None
     # 1. the theorems the property relies on, on both bounded lattices (incl. the scale laws and the many-turn
     #    theorems); the branch and block mechanisms refine their intent; the designs cover (ASSUMEs)
     ctx.tlc("SphereMC.tla", what="lattice theorems, scale laws, turn theorems, mechanisms (exhaustive)",
@@ -734,6 +1046,23 @@ def run(ctx):
     rej3, nf3 = judge(ctx, pid, kept["turn"], blocks, rejects["turn"], present["gc"])
     rej4, nf4 = judge_scale(ctx, kept["scale"], scases, tiles_hex, rejects["scale"])
 
+    # 4b. sessions over the entry points in one process (class W)
+    wstats = {}
+    if WORLD:
+        wp, wsessions, wrecs_ = wfut.result()
+        wstats = world_judge(ctx, wp, wsessions, recs=wrecs_)
+    wpool.shutdown()
+    if WORLD:
+        good_s = [{"op": "call", "err": "none", "same": True, "kept": True, "argsok": True}, {"op": "scribble", "h": 1},
+                  {"op": "call", "err": "none", "same": True, "kept": True, "argsok": True}]
+        wprobe = [{"id": 1, "steps": good_s}, {"id": 2, "steps": [good_s[0], good_s[1], dict(good_s[2], same=False)]},
+                  {"id": 3, "steps": [good_s[0], dict(good_s[2], kept=False)]}, {"id": 4, "steps": [dict(good_s[0], kept=False), good_s[1]]}]
+        saved = ctx.traces
+        wrej = tracecheck.validate(ctx, "SphereWorldTrace.tla", wprobe, what="self-test: corrupted sessions rejected", workers=1)
+        ctx.traces = saved
+        if (1 in wrej or 4 in wrej or [c for c, _ in wrej.get(2, [])] != ["world_independent"]
+                or [c for c, _ in wrej.get(3, [])] != ["results_are_callers"]):
+            raise MachineryError("binding self-test of SphereWorldTrace failed: %s" % wrej)
     # 5. binding self-test: a corrupted observation must be rejected, its untouched twin accepted
     def first_good(c):
         r = accepted[c]
@@ -784,6 +1113,7 @@ def run(ctx):
              many_turn_records=nrec["turn"], large_calls=len(scases), large_call_records=nrec["scale"],
              large_call_elements=sum(c["n"] for c in scases),
              rejected_records=len(rej1) + len(rej2) + len(rej3) + len(rej4),
+             world=wstats,
              failing_evaluations=nf1 + nf2 + nf3 + nf4, informational_shape_dependent_results=shape_dep,
              informational_large_call_positions_with_bit_differences=bitdiff,
              tolerances_deg={"sphdist": "1e-11", "gcirc": "2e-6", "input_rounding_allowance": "2e-13"})
@@ -808,8 +1138,25 @@ def run(ctx):
                        "accuracy at generic doubles off both lattices is not decided (no transcendental oracle in TLA+)"]
 
 
+def replay_world(ctx, case):
+    """re-execute the whole session in one fresh process (and its calls alone in fresh processes), judge again"""
+    r = ctx.tlc("SphereWorld.tla", what="export world points", workers=1, coverage=False,
+                cfg_text=cfg(constants=dict(Mechs={"none"}, MaxLen=0, MCForms={"scalar"}, MemoForms={"scalar", "npscalar", "arr1"},
+                                            Thorough=False, DoExport=True), constraints=["Export"]))
+    wp = r.records["WPTS"][0]
+    before = len(ctx.violations)
+    try:
+        world_judge(ctx, wp, [case["session"]])
+    except MachineryError as e:
+        if "nothing scribbled" not in str(e):
+            raise
+    print("replay of the session: %d violation(s)" % (len(ctx.violations) - before))
+
+
 def replay(ctx, case):
     sl.self_validate()
+    if case["kind"] == "world":
+        return replay_world(ctx, case)
     var = vnorm(case["variant"])
     if case["kind"] == "scale":
         return replay_scale(ctx, case, var)
